@@ -859,4 +859,213 @@ theorem fpRT {c : FpCfg} (h : WFc c) {Fl : Type} [Flags Fl] (hF : FlagsOK Fl) (x
   simp only [List.length_append, toB_length, List.length_cons, List.length_nil]
   rw [show S - 1 + (0 + 1) = S by omega]
 
+/-- inversion of a successful `deserialize_with_flags` -/
+theorem fpDe_ok_inv {c : FpCfg} (h : WFc c) {Fl : Type} [Flags Fl] (hf : bitSize Fl ≤ 8) {s s' : Rd}
+    {x : Fp c.p} {fl : Fl} (hd : fpDeFlags c Fl s = .ok (x, fl) s') :
+    fpSizeFlags c Fl ≤ s.inp.length ∧ s' = ⟨s.inp.drop (fpSizeFlags c Fl), s.used + fpSizeFlags c Fl⟩ ∧
+    Flags.fromU8 (s.inp.getD (fpSizeFlags c Fl - 1) 0) = some fl ∧
+    (fpSizeFlags c Fl > c.N * 8 →
+      s.inp.getD (fpSizeFlags c Fl - 1) 0 &&& (255 - Flags.u8Bitmask fl % 256) = 0) ∧
+    x.val = leVal (s.inp.take (fpSizeFlags c Fl - 1)) + 256 ^ (fpSizeFlags c Fl - 1) *
+      (s.inp.getD (fpSizeFlags c Fl - 1) 0 &&& (255 - Flags.u8Bitmask fl % 256)) ∧
+    x.val < c.p := by
+  rw [fpDe_char h Fl hf, fpDeSpec] at hd
+  generalize fpSizeFlags c Fl = S at *
+  simp only at hd
+  by_cases hshort : s.inp.length < S
+  · rw [if_pos hshort] at hd; cases hd
+  rw [if_neg hshort] at hd
+  cases hfl : Flags.fromU8 (Fl := Fl) (s.inp.getD (S - 1) 0) with
+  | none => rw [hfl] at hd; cases hd
+  | some fl' =>
+    rw [hfl] at hd
+    simp only at hd
+    by_cases hchk : S > c.N * 8 ∧ s.inp.getD (S - 1) 0 &&& 255 - Flags.u8Bitmask fl' % 256 ≠ 0
+    · rw [if_pos hchk] at hd; cases hd
+    rw [if_neg hchk] at hd
+    cases hfb : fromBigint c (leVal (List.take (S - 1) s.inp) +
+        256 ^ (S - 1) * (s.inp.getD (S - 1) 0 &&& 255 - Flags.u8Bitmask fl' % 256)) with
+    | none => rw [hfb] at hd; cases hd
+    | some x' =>
+      rw [hfb] at hd
+      simp only [R.ok.injEq, Prod.mk.injEq] at hd
+      obtain ⟨⟨rfl, rfl⟩, rfl⟩ := hd
+      obtain ⟨e1, e2⟩ := fromBigint_some h.p_pos hfb
+      refine ⟨by omega, rfl, rfl, ?_, e1, e1 ▸ e2⟩
+      intro hgt
+      by_contra hne
+      exact hchk ⟨hgt, hne⟩
+
+/-- the value returned by a successful deserialisation is reduced -/
+theorem fpDe_ok_lt {c : FpCfg} (h : WFc c) {Fl : Type} [Flags Fl] {s s' : Rd}
+    {x : Fp c.p} {fl : Fl} (hd : fpDeFlags c Fl s = .ok (x, fl) s') : x.val < c.p := by
+  by_cases hf : bitSize Fl ≤ 8
+  · exact (fpDe_ok_inv h hf hd).2.2.2.2.2
+  · unfold fpDeFlags at hd
+    simp only [if_pos (show bitSize Fl > 8 by omega), M_throw_bind] at hd
+    cases hd
+
+/-- uniqueness on an arbitrary reader state: an accepted byte string is the serialisation of the result -/
+theorem fpUniq {c : FpCfg} (h : WFc c) {Fl : Type} [Flags Fl] (hf : bitSize Fl ≤ 8) (hsub : FlagsSub Fl)
+    {s s' : Rd} (hb : ∀ b ∈ s.inp, b < 256) {x : Fp c.p} {fl : Fl}
+    (hd : fpDeFlags c Fl s = .ok (x, fl) s') :
+    fpSerFlags c Fl x fl = .ok (s.inp.take (fpSizeFlags c Fl)) := by
+  obtain ⟨h1, h2⟩ := h.size_range Fl hf
+  obtain ⟨hlen, -, hfl, hchk, hx, hlt⟩ := fpDe_ok_inv h hf hd
+  rw [fpSer_char h Fl hf]
+  unfold serOld
+  generalize hS : fpSizeFlags c Fl = S at *
+  have hv : s.inp.getD (S - 1) 0 < 256 := by
+    have hlt : S - 1 < s.inp.length := by omega
+    simp only [List.getD, List.getElem?_eq_getElem hlt, Option.getD_some]
+    exact hb _ (List.getElem_mem _)
+  have hm : Flags.u8Bitmask fl % 256 < 256 := Nat.mod_lt _ (by decide)
+  have hpre : ∀ b ∈ s.inp.take (S - 1), b < 256 := fun b hb' => hb b (List.mem_of_mem_take hb')
+  have hpl : (s.inp.take (S - 1)).length = S - 1 := by rw [List.length_take]; omega
+  have hv' : s.inp.getD (S - 1) 0 &&& 255 - Flags.u8Bitmask fl % 256 < 256 :=
+    Nat.lt_of_le_of_lt Nat.and_le_right (by omega)
+  generalize hv'd : s.inp.getD (S - 1) 0 &&& 255 - Flags.u8Bitmask fl % 256 = v' at *
+  have hold : (if S = 8 * c.N + 1 then 0 else x.val / 256 ^ (S - 1) % 256) = v' := by
+    split
+    · next hS' => exact (hchk (by omega)).symm
+    · rw [hx, Nat.add_mul_div_left _ _ (Nat.pow_pos (by decide)),
+        Nat.div_eq_of_lt (by have := leVal_lt _ hpre; rwa [hpl] at this), Nat.zero_add,
+        Nat.mod_eq_of_lt hv']
+  have hpre' : toB (S - 1) x.val = s.inp.take (S - 1) := by
+    have := toB_leVal_add _ hpre v'
+    rw [hpl] at this; rw [hx]; exact this
+  rw [hold, hpre', ← hv'd, byte_uniq _ _ hv hm (hsub _ fl hv hfl)]
+  have : S = (S - 1) + 1 := by omega
+  rw [this, take_succ_getD _ _ (by omega), ← this]
+
+/-! ## Consumption discipline of readers -/
+
+/-- `m` never panics, reads exactly `k` bytes when it succeeds and at most `k` (and never more than
+    the input holds) when it fails -/
+structure Reads {α : Type} (m : M α) (k : Nat) : Prop where
+  no_panic : ∀ s, m s ≠ .panic
+  ok_used : ∀ s a s', m s = .ok a s' → k ≤ s.inp.length ∧ s' = ⟨s.inp.drop k, s.used + k⟩
+  err_used : ∀ s e s', m s = .err e s' →
+    s.used ≤ s'.used ∧ s'.used ≤ s.used + k ∧ s'.used ≤ s.used + s.inp.length
+
+theorem Reads.short {α : Type} {m : M α} {k : Nat} (h : Reads m k) (s : Rd) (hs : s.inp.length < k) :
+    ∃ e s', m s = .err e s' := by
+  cases hm : m s with
+  | ok a s' => have := (h.ok_used s a s' hm).1; omega
+  | err e s' => exact ⟨e, s', rfl⟩
+  | panic => exact absurd hm (h.no_panic s)
+
+theorem Reads.pure {α : Type} (a : α) : Reads (pure a : M α) 0 where
+  no_panic := by intro s hm; cases hm
+  ok_used := by
+    intro s a' s' hm
+    cases hm
+    exact ⟨Nat.zero_le _, rfl⟩
+  err_used := by intro s e s' hm; cases hm
+
+theorem Reads.throw {α : Type} (e : Err) (k : Nat) : Reads (throwE e : M α) k where
+  no_panic := by intro s hm; cases hm
+  ok_used := by intro s a s' hm; cases hm
+  err_used := by
+    intro s e' s' hm
+    cases hm
+    exact ⟨Nat.le_refl _, Nat.le_add_right _ _, Nat.le_add_right _ _⟩
+
+theorem Reads.bind {α β : Type} {m : M α} {f : α → M β} {k k' : Nat} (hm : Reads m k)
+    (hf : ∀ a, Reads (f a) k') : Reads (m >>= f) (k + k') where
+  no_panic := by
+    intro s hp
+    rw [M_bind_apply] at hp
+    cases h1 : m s with
+    | ok a s1 => rw [h1] at hp; exact (hf a).no_panic s1 hp
+    | err e s1 => rw [h1] at hp; cases hp
+    | panic => exact hm.no_panic s h1
+  ok_used := by
+    intro s b s' hp
+    rw [M_bind_apply] at hp
+    cases h1 : m s with
+    | ok a s1 =>
+      rw [h1] at hp
+      obtain ⟨h2, rfl⟩ := hm.ok_used s a s1 h1
+      obtain ⟨h3, rfl⟩ := (hf a).ok_used _ b s' hp
+      simp only [List.length_drop] at h3
+      refine ⟨by omega, ?_⟩
+      simp only [List.drop_drop, Nat.add_assoc]
+    | err e s1 => rw [h1] at hp; cases hp
+    | panic => rw [h1] at hp; cases hp
+  err_used := by
+    intro s e s' hp
+    rw [M_bind_apply] at hp
+    cases h1 : m s with
+    | ok a s1 =>
+      rw [h1] at hp
+      obtain ⟨h2, rfl⟩ := hm.ok_used s a s1 h1
+      obtain ⟨h3, h4, h5⟩ := (hf a).err_used _ e s' hp
+      simp only [List.length_drop] at h3 h4 h5
+      exact ⟨by omega, by omega, by omega⟩
+    | err e1 s1 =>
+      rw [h1] at hp; cases hp
+      obtain ⟨h3, h4, h5⟩ := hm.err_used s e s' h1
+      exact ⟨h3, by omega, h5⟩
+    | panic => rw [h1] at hp; cases hp
+
+theorem Reads.bind0 {α β : Type} {m : M α} {f : α → M β} {k : Nat} (hm : Reads m k)
+    (hf : ∀ a, Reads (f a) 0) : Reads (m >>= f) k := by
+  have := Reads.bind hm hf; rwa [Nat.add_zero] at this
+
+theorem Reads.congr {α : Type} {m : M α} {k k' : Nat} (h : Reads m k) (e : k = k') : Reads m k' := e ▸ h
+
+/-- `deserialize_with_flags` of `Fp`: for every flag type (a flag type wider than 8 bits is refused
+    before anything is read) -/
+theorem fpDeFlags_reads {c : FpCfg} (h : WFc c) (Fl : Type) [Flags Fl] :
+    Reads (fpDeFlags c Fl) (fpSizeFlags c Fl) := by
+  by_cases hf : bitSize Fl ≤ 8
+  · have hspec : ∀ s, fpDeFlags c Fl s = fpDeSpec c Fl s := fpDe_char h Fl hf
+    refine ⟨?_, ?_, ?_⟩
+    · intro s hp
+      rw [hspec, fpDeSpec] at hp
+      simp only at hp
+      split at hp
+      · cases hp
+      · split at hp
+        · cases hp
+        · split at hp
+          · cases hp
+          · split at hp <;> cases hp
+    · intro s ⟨x, fl⟩ s' hd
+      have := fpDe_ok_inv h hf hd
+      exact ⟨this.1, this.2.1⟩
+    · intro s e s' hp
+      rw [hspec, fpDeSpec] at hp
+      simp only at hp
+      have hgen : ∀ (S : Nat) (s' : Rd), ¬ s.inp.length < S → s' = ⟨s.inp.drop S, s.used + S⟩ →
+          s.used ≤ s'.used ∧ s'.used ≤ s.used + S ∧ s'.used ≤ s.used + s.inp.length := by
+        intro S s' h1 h2; subst h2; simp only; omega
+      split at hp
+      · next hlt => cases hp; simp only; omega
+      · next hlt =>
+        split at hp
+        · cases hp; exact hgen _ _ hlt rfl
+        · split at hp
+          · cases hp; exact hgen _ _ hlt rfl
+          · split at hp <;> cases hp
+            exact hgen _ _ hlt rfl
+  · have e : fpDeFlags c Fl = throwE .notenough := by
+      unfold fpDeFlags
+      simp only [if_pos (show bitSize Fl > 8 by omega), M_throw_bind]
+    rw [e]; exact Reads.throw _ _
+
+/-- a short input is an `IoError` (for a flag type of at most 8 bits) -/
+theorem fpDeFlags_short {c : FpCfg} (h : WFc c) (Fl : Type) [Flags Fl] (hf : bitSize Fl ≤ 8) (s : Rd)
+    (hs : s.inp.length < fpSizeFlags c Fl) :
+    fpDeFlags c Fl s = .err .io ⟨[], s.used + s.inp.length⟩ := by
+  rw [fpDe_char h Fl hf, fpDeSpec]
+  simp only
+  rw [if_pos hs]
+
+theorem fpDe_reads {c : FpCfg} (h : WFc c) (cm : Compress) (vd : Validate) :
+    Reads (fpDe c cm vd) (fpSizeFlags c EmptyFlags) := by
+  unfold fpDe
+  exact Reads.bind0 (fpDeFlags_reads h EmptyFlags) (fun ⟨r, _⟩ => Reads.pure r)
+
 end Ark.Bytes
